@@ -378,6 +378,14 @@ func Replay(spec Spec, rp *evidence.Replay) int {
 	if spec.Timeout == 0 {
 		spec.Timeout = 30 * time.Minute
 	}
+	if spec.Prepare != nil {
+		penv, err := spec.Prepare(scratch)
+		if err != nil {
+			fmt.Fprintln(os.Stderr, err)
+			return 2
+		}
+		spec.ExtraEnv = append(spec.ExtraEnv, penv...)
+	}
 	bin, err := build(spec, scratch)
 	if err != nil {
 		fmt.Fprintln(os.Stderr, err)
